@@ -254,29 +254,33 @@ def refReduceRow (e : EOps α) (s : St α m n) (ti : Fin m) (tj : Fin n) : St α
 def lineClean (e : EOps α) (T : Mat α m n) (ti : Fin m) (tj : Fin n) : Bool :=
   (allFin m fun r => r = ti || e.isZero (T.get r tj)) && (allFin n fun c => c = tj || e.isZero (T.get ti c))
 
+/-- move the chosen entry to `(t, t)` and reduce its column and row by Euclidean division -/
+def refPrep (e : EOps α) (s : St α m n) (ti : Fin m) (tj : Fin n) (i : Fin m) (j : Fin n) : St α m n :=
+  let s := if i = ti then s else sSwapRows s ti i
+  let s := if j = tj then s else sSwapCols s tj j
+  let s := refReduceCol e s ti tj
+  refReduceRow e s ti tj
+
 def refLoop (e : EOps α) : (fuel : Nat) → (t : Nat) → St α m n → Res (St α m n)
   | 0, _, _ => .err
   | fuel + 1, t, s =>
     if h : t < m ∧ t < n then
-      let ti : Fin m := ⟨t, h.1⟩
-      let tj : Fin n := ⟨t, h.2⟩
       match findMin e s.t t with
       | none => .ok s
       | some (i, j) =>
-        let s := if i = ti then s else sSwapRows s ti i
-        let s := if j = tj then s else sSwapCols s tj j
-        let s := refReduceCol e s ti tj
-        let s := refReduceRow e s ti tj
-        if lineClean e s.t ti tj then
-          match findNonDiv e s.t ti tj with
-          | some i => refLoop e fuel t (sLeftRaw e.toROps s e.one e.one e.zero e.one ti i)
+        let s1 := refPrep e s ⟨t, h.1⟩ ⟨t, h.2⟩ i j
+        if lineClean e s1.t ⟨t, h.1⟩ ⟨t, h.2⟩ then
+          match findNonDiv e s1.t ⟨t, h.1⟩ ⟨t, h.2⟩ with
+          | some i =>
+            if i = ⟨t, h.1⟩ then .err   -- cannot happen (`findNonDiv` looks below row `t`)
+            else refLoop e fuel t (sLeftRaw e.toROps s1 e.one e.one e.zero e.one ⟨t, h.1⟩ i)
           | none =>
-            let u := e.normUnit (s.t.get ti tj)
-            if e.isOne u then refLoop e fuel (t + 1) s
-            else match sMulRow e s ti u with
-              | .ok s => refLoop e fuel (t + 1) s
+            let u := e.normUnit (s1.t.get ⟨t, h.1⟩ ⟨t, h.2⟩)
+            if e.isOne u then refLoop e fuel (t + 1) s1
+            else match sMulRow e s1 ⟨t, h.1⟩ u with
+              | .ok s2 => refLoop e fuel (t + 1) s2
               | r => r
-        else refLoop e fuel t s
+        else refLoop e fuel t s1
     else .ok s
 
 def refSnf (e : EOps α) (fuel : Nat) (A : Mat α m n) : Res (St α m n) :=
